@@ -186,6 +186,9 @@ def query_part(chk, found):
     """query() = most_common(k) of a cache that maps exactly the stored identities with
     _max_count >= threshold to that value and is regenerated whenever it is stale (also used by C03
     and C04, whose statements speak about what query() returns)"""
+    if ("hh-query",) in chk.done:
+        return
+    chk.done.add(("hh-query",))
     ex = glue.make_exec(chk, {("call", "heavyhitters._max_count"): maxcount_hook})
     try:
         check_gcs(chk, ex, found)
